@@ -19,21 +19,34 @@ def run(ctx):
     ctx.cov["rule"] = ("(a) random mutator/collector histories against the real Allocator (boxes, tuples, interned strings, plain-heap objects; "
                        "roots, temp roots, schedules every-k, byte thresholds, forced nursery/full) judged by a reachability monitor and replayed "
                        "through the Lean model; (b) generated programs and fixtures run under several collection schedules (every allocation, "
-                       "every k-th, seeded coin, never; forced nursery/full) — outcomes must be identical; non-trivial = at least one collection "
+                       "every k-th, seeded coin, never; forced nursery/full) — outcomes must be identical; the generated part includes object-zoo programs (iterator "
+                       "pipelines advanced part of the way and held in every kind of container, channels, bound methods, closures: vlib/zoo.py); non-trivial = at least one collection "
                        "happened; distinct by (program, schedule)")
     if not proved:
         what, detail = ctx.broken
         ctx.cov["search"] = "alloc histories x10 + schedule stream"
         ok = alloc_stream.run_stream(ctx, ctx.n(600, 4000), 150, "C05")
         if ok:
-            ctx.violation("proof", {"kind": "proof-obligation-failed", "broken": what, "detail": detail}, no_input=True)
+            # the schedule stream with a larger budget: generated programs, object-zoo programs, fixtures
+            modes = sched_stream.SCHEDULES_THOROUGH
+            corpus = os.path.join(common.VERIF, "corpus", "C05")
+            cf = sorted(os.path.join(corpus, f) for f in os.listdir(corpus) if f.endswith(".lay")) if os.path.isdir(corpus) else []
+            files = cf + sched_stream.write_zoo(ctx, ctx.n(500, 4000), "zoo_search") + sched_stream.write_generated(ctx, ctx.n(200, 3000), "gen_search") \
+                + sched_stream.fixture_programs(ctx.n(150, None))
+            ok = sched_stream.compare_modes(ctx, "search_schedules", files, modes, steps=ctx.n(150000, 400000))
+            if ok:
+                ctx.violation("proof", {"kind": "proof-obligation-failed", "broken": what, "detail": detail}, no_input=True)
+            else:
+                # name the broken obligation inside the concrete replay
+                ctx.cov["broken_obligation"] = what
         return
     if not alloc_stream.run_stream(ctx, ctx.n(120, 3000), ctx.n(120, 300), "C05"):
         return
     modes = sched_stream.SCHEDULES_QUICK if ctx.quick() else sched_stream.SCHEDULES_THOROUGH
     corpus = os.path.join(common.VERIF, "corpus", "C05")
     cf = sorted(os.path.join(corpus, f) for f in os.listdir(corpus) if f.endswith(".lay")) if os.path.isdir(corpus) else []
-    files = cf + sched_stream.write_generated(ctx, ctx.n(70, 3000), "gen") + sched_stream.fixture_programs(ctx.n(120, None))
+    files = cf + sched_stream.write_generated(ctx, ctx.n(70, 3000), "gen") + sched_stream.write_zoo(ctx, ctx.n(120, 3000)) \
+        + sched_stream.fixture_programs(ctx.n(120, None))
     if not sched_stream.compare_modes(ctx, "schedules", files, modes, steps=ctx.n(150000, 400000)):
         return
     ctx.sample({"program": files[len(cf)], "schedules": ["default"] + modes})
